@@ -26,4 +26,23 @@ PROPS = {
             "code is checked on every run by the correspondence stream (real leveldb vs Lean driver, same op lines)",
             "handles are not used after commit/rollback (the wallet never does)"],
     },
+    "C20": {
+        "props": ["MassVerif.Props.C20"],
+        "drivers_mod": ["MassVerif.Driver.C20"],
+        "harnesses": [{
+            "name": "api", "pkg": "harness/api", "driver": "MassVerif/Driver/C20.lean",
+            "quick": {"n": 30}, "thorough": {"n": 600}, "search": {"n": 600},
+        }],
+        "level_text": "Unbounded proof (Lean 4): the admission closure admits exactly wildcard / loopback / whitelisted / enabled-LAN "
+                      "addresses, with the mask arithmetic of IPNet.Contains proved equal to the three closed RFC1918 intervals for all "
+                      "2^32 IPv4 addresses (CIDR literals are regenerated facts); non-admitted requests get 403 without the inner handler; "
+                      "AmountToString is the exact canonical decimal of m/10^8 and StringToAmount inverts it for every 0<=m<=max; "
+                      "the listed binding target is the library's definition. Tied to the code by a differential check of every function.",
+        "level_note": "Trusted: Lean kernel; net.ResolveTCPAddr/ParseIP/IP.String (modelled at the level of the parsed address; the harness "
+                      "canonicaliser is independent of the code under test); hash160/bech32/address encoders of mass-core are parameters — "
+                      "the binding-target/address clause is decided by comparing the API's records with the library's own functions.",
+        "trusted_base": ["net package address parsing (modelled at the parsed value)", "mass-core massutil encoders (parameters)"],
+        "assumptions": ["http.Request.RemoteAddr is an IP:port literal as set by net/http (host names are not generated)",
+                        "hand-written model Model/Api.lean; agreement with api/gateway.go, api/util.go checked by the correspondence stream on every run"],
+    },
 }
